@@ -107,6 +107,7 @@ func runR14_1(c *Ctx, r *R) {
 
 func runR14_3(c *Ctx, r *R) {
 	e := newBE(c)
+	e.stablePtrFields = true // the syntax tree handed to the model is not mutated by the model constructors
 	if f := r.Need("internal/lang/model", "newField"); f != nil {
 		fc := e.newFnCtx(f)
 		n := 0
